@@ -306,7 +306,7 @@ def mutate_valid(rng, doc):
     walk(d, [])
     kind = rng.choice(['unknown-key', 'wrong-type', 'missing-required', 'bad-enum', 'wrong-version', 'bad-model-name'])
     if kind == 'wrong-version':
-        d['version'] = rng.choice(['0.1', '1.0', '2.0', '', '1.1.0', 'x'])
+        d['version'] = rng.choice(['0.1', '1.0', '2.0', '', '1.1.0', 'x', '1.10', '1.12', '1.1x', '1.1-beta', '1.15.3', ' 1.1', '1.1 ', '01.1', '1.1\n', '1,1', '1.01'])
         return d, kind
     if kind == 'unknown-key':
         o, path = rng.choice(objs)
